@@ -77,6 +77,7 @@ fn _mint_mulmod<const SIZE: usize>(zn: &ZmodN, res: &mut [u64], x: &[u64], y: &[
         limbs(y@.take(SIZE as int)) < zn.nval(),
     ensures
         final(res).len() == 8,
+        forall|k: int| SIZE <= k < 8 ==> final(res)@[k] == old(res)@[k],
         limbs(final(res)@.take(SIZE as int)) < 2 * zn.nval(),
         (limbs(final(res)@.take(SIZE as int)) * pow_w(SIZE as nat)) % zn.nval()
             == (limbs(x@.take(SIZE as int)) * limbs(y@.take(SIZE as int))) % zn.nval(),
@@ -141,8 +142,7 @@ fn _mint_mulmod<const SIZE: usize>(zn: &ZmodN, res: &mut [u64], x: &[u64], y: &[
                 let ghost zij_old = z@[i + j];
                 let ghost c0 = carry;
                 proof {
-                    assert(xi * yj <= 0xffff_ffff_ffff_ffffu128 * 0xffff_ffff_ffff_ffffu128) by (nonlinear_arith)
-                        requires xi <= 0xffff_ffff_ffff_ffffu128, yj <= 0xffff_ffff_ffff_ffffu128;
+                    lemma_u64_mul_bound(xi as int, yj as int);
                 }
                 let zij = &mut z[i + j];
                 let mut xy = xi * yj;
@@ -197,8 +197,7 @@ fn _mint_mulmod<const SIZE: usize>(zn: &ZmodN, res: &mut [u64], x: &[u64], y: &[
                 let ghost zij_old = z@[i + j];
                 let ghost c0 = carryn;
                 proof {
-                    assert((m as u128) * nj <= 0xffff_ffff_ffff_ffffu128 * 0xffff_ffff_ffff_ffffu128) by (nonlinear_arith)
-                        requires (m as u128) <= 0xffff_ffff_ffff_ffffu128, nj <= 0xffff_ffff_ffff_ffffu128;
+                    lemma_u64_mul_bound(m as int, nj as int);
                 }
                 let zij = &mut z[i + j];
                 let mut xy = (m as u128) * nj;
@@ -259,26 +258,14 @@ fn _mint_mulmod<const SIZE: usize>(zn: &ZmodN, res: &mut [u64], x: &[u64], y: &[
             assert(limbs(z2) + pis * (carryn as nat) == limbs(z1) + pi * (mn * nn));
             assert(limbs(z3) + pis * (z2[(i + SIZE) as int] as nat) == limbs(z2) + pis * (zin as nat));
             assert(zin as nat + W() * cc == z2[(i + SIZE) as int] as nat + carry as nat + carryn as nat);
-            assert(limbs(z3) + (W() * pis) * cc == xi1 * yy + mm1 * nn) by (nonlinear_arith)
-                requires
-                    limbs(z1) + pis * (carry as nat) == limbs(z0) + pi * (xn * yy),
-                    limbs(z2) + pis * (carryn as nat) == limbs(z1) + pi * (mn * nn),
-                    limbs(z3) + pis * (z2[(i + SIZE) as int] as nat) == limbs(z2) + pis * (zin as nat),
-                    zin as nat + W() * cc == z2[(i + SIZE) as int] as nat + carry as nat + carryn as nat,
-                    limbs(z0) == xi0 * yy + mm * nn,
-                    xi1 == xi0 + pi * xn,
-                    mm1 == mm + pi * mn;
-            // bounds
-            assert(mm1 < W() * pi) by (nonlinear_arith) requires mm < pi, mn < W(), mm1 == mm + pi * mn;
-            assert(xi1 < W() * pi);
-            assert(xi1 * yy + mm1 * nn < 2 * ((W() * pi) * nn)) by (nonlinear_arith)
-                requires xi1 < W() * pi, mm1 < W() * pi, yy < nn;
+            lemma_cios_round(limbs(z0) as int, limbs(z1) as int, limbs(z2) as int, limbs(z3) as int, pis as int, pi as int, W() as int,
+                carry as int, carryn as int, xn as int, yy as int, mn as int, nn as int, z2[(i + SIZE) as int] as int, zin as int, cc as int,
+                xi0 as int, xi1 as int, mm as int, mm1 as int);
             if i + 1 == SIZE {
                 assert(W() * pi == pow_w(SIZE as nat));
                 assert(W() * pis == pow_w(SIZE as nat) * pow_w(SIZE as nat));
                 assert(pow_w(2 * SIZE as nat) == pow_w(SIZE as nat) * pow_w(SIZE as nat));
-                assert(cc <= 1) by (nonlinear_arith)
-                    requires limbs(z3) + (pow_w(SIZE as nat) * pow_w(SIZE as nat)) * cc < 2 * (pow_w(SIZE as nat) * nn), nn < pow_w(SIZE as nat), cc <= 2;
+                lemma_cios_top(limbs(z3) as int, pow_w(SIZE as nat) as int, nn as int, cc as int);
             }
         }
         if c1 || c2 {
@@ -329,9 +316,11 @@ fn _mint_mulmod<const SIZE: usize>(zn: &ZmodN, res: &mut [u64], x: &[u64], y: &[
         }
     }
     let ghost xx = limbs(x@.take(SIZE as int));
+    let ghost resin = res@;
     for i in 0..SIZE
-        invariant 1 <= SIZE <= 8, res.len() == 8,
+        invariant 1 <= SIZE <= 8, res.len() == 8, resin.len() == 8,
             forall|k: int| 0 <= k < i ==> res@[k] == z@[k + SIZE],
+            forall|k: int| i <= k < 8 ==> res@[k] == resin[k],
     {
         res[i] = z[i + SIZE]
     }
@@ -351,8 +340,7 @@ fn _mint_mulmod<const SIZE: usize>(zn: &ZmodN, res: &mut [u64], x: &[u64], y: &[
         lemma_pow_w_pos(SIZE as nat);
         lemma_limbs_bound(x@.take(SIZE as int));
         assert(pow_w(2 * SIZE as nat) == ps * ps);
-        assert(xx * yy + mm * nn < 2 * (ps * nn)) by (nonlinear_arith)
-            requires xx < ps, mm < ps, yy < nn;
+        lemma_cios_bound(xx as int, yy as int, mm as int, nn as int, ps as int);
     }
     if overflow {
         // Add 2^64W - n = not(n)+1
@@ -392,18 +380,19 @@ fn _mint_mulmod<const SIZE: usize>(zn: &ZmodN, res: &mut [u64], x: &[u64], y: &[
                 let a = (s as u64) as nat; let c1 = carry as nat; let c00 = c0 as nat;
                 let r0 = res0[i as int] as nat; let nin = ni as nat; let nni = (!ni) as nat;
                 assert(a + W() * c1 == r0 + nni + c00);
-                assert(pi * a + (W() * pi) * c1 + pi * nin + pi == pi * r0 + (W() * pi) + pi * c00) by (nonlinear_arith)
-                    requires a + W() * c1 == r0 + nni + c00, nni + nin + 1 == W();
+                lemma_carry_step(pi as int, W() as int, a as int, c1 as int, r0 as int, nni as int, c00 as int);
+                lemma_distrib_l(pi as int, nni as int + nin as int, 1);
+                lemma_distrib_l(pi as int, nni as int, nin as int);
+                lemma_mul_comm(pi as int, W() as int);
+                assert(pi * a + (W() * pi) * c1 + pi * nin + pi == pi * r0 + (W() * pi) + pi * c00);
             }
         }
         proof {
             // vv + ps - nn == limbs(res) + carry*ps, and vv + ps < 2 nn
             assert(res0.take(SIZE as int) =~= res0.take(SIZE as int));
             assert(ps * vv + ps * ps == xx * yy + mm * nn);
-            assert(vv + ps < 2 * nn) by (nonlinear_arith)
-                requires ps * vv + ps * ps < 2 * (ps * nn), ps > 0;
-            assert(carry == 0) by (nonlinear_arith)
-                requires limbs(res@.take(SIZE as int)) + ps * (carry as nat) + nn == vv + ps, vv + ps < 2 * nn, nn < ps, carry <= 1;
+            lemma_cios_ovf_bound(vv as int, ps as int, nn as int);
+            if carry == 1 { assert(ps * 1 == ps); assert(false); }
         }
         if carry > 0 {
             // FIXME: can it happen?
@@ -412,20 +401,13 @@ fn _mint_mulmod<const SIZE: usize>(zn: &ZmodN, res: &mut [u64], x: &[u64], y: &[
         proof {
             let v2 = limbs(res@.take(SIZE as int));
             assert(v2 + nn == vv + ps);
-            assert(v2 * ps + nn * ps == xx * yy + mm * nn) by (nonlinear_arith)
-                requires v2 + nn == vv + ps, ps * vv + ps * ps == xx * yy + mm * nn;
-            // (v2*ps) % nn == (xx*yy) % nn
-            vstd::arithmetic::div_mod::lemma_mod_multiples_vanish(mm as int - ps as int, (xx * yy) as int, nn as int);
-            assert((nn as int) * (mm as int - ps as int) + (xx * yy) as int == (v2 * ps) as int) by (nonlinear_arith)
-                requires v2 * ps + nn * ps == xx * yy + mm * nn;
+            lemma_cios_final_ovf(vv as int, v2 as int, ps as int, xx as int, yy as int, mm as int, nn as int);
+            lemma_cios_ovf_bound(vv as int, ps as int, nn as int);
         }
     } else {
         proof {
             assert(ps * vv == xx * yy + mm * nn);
-            assert(vv < 2 * nn) by (nonlinear_arith) requires ps * vv < 2 * (ps * nn), ps > 0;
-            vstd::arithmetic::div_mod::lemma_mod_multiples_vanish(mm as int, (xx * yy) as int, nn as int);
-            assert((nn as int) * (mm as int) + (xx * yy) as int == (vv * ps) as int) by (nonlinear_arith)
-                requires ps * vv == xx * yy + mm * nn;
+            lemma_cios_final(vv as int, ps as int, xx as int, yy as int, mm as int, nn as int);
         }
     }
 }
